@@ -11,6 +11,8 @@
                     new one; pop_back/erase destroy exactly one element per decrement on every path;
                     resize destroys (shrinking) or constructs (growing) in a loop before setSize;
                     destroyAll destroys all elements and frees the heap block iff one is owned.
+  C38.move-transfer the element-wise loops of the move constructor / move assignment destroy each source
+                    element they moved from (the source is then declared empty without destructors).
   C38.growth        every growToHeap(newCap) reached from emplace_back on a full vector asks for more
                     than the capacity it replaces, evaluated for each instantiated N (N = 1 included)
                     and a family of heap capacities.
@@ -99,6 +101,7 @@ def run(R):
             R.ob("C38.lifetime", fn, fn.loc, ok, "destroys all elements; frees the heap block iff not inline" if ok else "destroyAll does not destroy all / frees inline storage", sitekey="destroyAll", why="each element is destroyed exactly once")
     R.need("C38.lifetime", n2, 4, "SmallVector lifetime sites")
     growth_rule(R)
+    move_transfer_rule(R)
 
 
 def growth_rule(R):
@@ -139,3 +142,36 @@ def growth_rule(R):
                  sitekey="emplace_back:%s" % ("heap" if uses_cap else "inline"), why="emplace_back on a full vector writes element size() of a block that must hold more than size() elements")
     R.need("C38.growth", n, 2, "growToHeap calls in emplace_back")
     R.need("C38.growth", 1 if 1 in seenN else 0, 1, "an instantiation with inline capacity N = 1 (the smallest legal one)")
+
+
+def move_transfer_rule(R):
+    """C38.move-transfer: the move constructor / move assignment take the inline elements of `other`
+    one by one and then declare `other` empty (other.size_ = 0) without running destructors: every
+    loop that move-constructs from an element of `other` must destroy that source element in the
+    same iteration, or the moved-from objects are never destroyed."""
+    F = R.F
+    n = 0
+    for fn in F.functions(cls=CLS):
+        nm = fn.qname.split("::")[-1]
+        if nm not in ("(ctor)", "operator=") or "Tracked" not in fn.raw.get("clsinst", ""):
+            continue
+        prm = [p for p in fn.params if "&&" in (p.get("type") or "") and "SmallVector" in (p.get("type") or "")]
+        if not prm:
+            continue
+        ov = prm[0]["vid"]
+        def on_other(x):
+            return any(isinstance(y, dict) and y.get("k") == "var" and y.get("vid") == ov for y in subexprs(x))
+        zeroed = [(p, e) for p, e in fn.events() if e.get("k") == "bin" and e.get("op") == "=" and const_val(e.get("r")) == 0 and on_other(e.get("l"))]
+        if not zeroed:
+            continue
+        for h, body, tails in natural_loops(fn):
+            news = [(p, nd) for p, nd in fn.all_nodes() if p.b in body and nd.get("k") == "new" and nd.get("placement") and on_other(nd)]
+            if not news:
+                continue
+            n += 1
+            dts = [(p, e) for p, e in fn.events() if p.b in body and is_destroy(e) and on_other(e)]
+            ok = bool(dts) and all(any(fn.dominates(np, dp) or fn.can_reach(np, dp) for dp, _ in dts) for np, _ in news)
+            R.ob("C38.move-transfer", fn, news[0][1], ok, "each element moved out of `other` is destroyed in the same iteration" if ok else
+                 "elements are move-constructed out of `other` but never destroyed; `other` is then declared empty, so their destructors never run",
+                 sitekey="%s:inline-loop" % nm, why="every element constructed must be destroyed exactly once")
+    R.need("C38.move-transfer", n, 2, "element-wise move loops (move constructor, move assignment)")
